@@ -177,7 +177,7 @@ def dump_graph(ctx, cfg, tag):
     def line_of(v, lab):
         if lab in CALL:
             return CALL[lab]
-        if lab == "CallLog":
+        if lab in ("CallLog", "CallLogSync"):
             return "A Log %d" % posted[v]
         return "W" if lab.startswith("Wk_") else "A"
 
@@ -361,8 +361,8 @@ def run_tsan(ctx, exe_t, progs, fcfg, tenv):
     ctx.log("c16-tsan: %d free-running programs under ThreadSanitizer, %d race reports" % (len(progs), nrep))
 
 
-ACTIONS = ["CallInit", "CallStart", "CallLog", "CallFini", "CtlEnable0", "CtlEnable1", "CtlConf", "CtlThreaded0", "CtlThreaded1",
-           "CtlClose", "C_Lock", "C_Body", "C_Unlock", "P_Lock", "P_Account", "P_Append", "P_Drop", "P_Unlock", "P_UnlockD",
+ACTIONS = ["CallInit", "CallStart", "CallLog", "CallLogSync", "CallFini", "CtlEnable0", "CtlEnable1", "CtlConf", "CtlThreaded0", "CtlThreaded1",
+           "CtlClose", "C_Lock", "C_Body", "C_Unlock", "A_Logger", "P_Lock", "P_Account", "P_Append", "P_Drop", "P_Unlock", "P_UnlockD",
            "P_Post", "S_Lock", "S_Set", "S_Unlock", "S_Post", "S_Join", "Wk_SemWait", "Wk_Lock", "Wk_ExitTest", "Wk_Exit",
            "Wk_Dequeue", "Wk_Write", "Wk_Logger", "Wk_Unlock"]
 EXPECT = {11: "AllWrittenAtFini", 12: "LockLive", 13: "InLoggerSafe"}
